@@ -197,7 +197,9 @@ func (g *Gen) structSort(t types.Type) string {
 		f := st.Field(i)
 		fs = append(fs, fmt.Sprintf("(%s.%s %s)", id, sanitize(f.Name()), g.sortOf(f.Type())))
 	}
-	g.emit("(declare-datatypes ((%s 0)) (((mk.%s %s))))", id, id, strings.Join(fs, " "))
+	line := fmt.Sprintf("(declare-datatypes ((%s 0)) (((mk.%s %s))))", id, id, strings.Join(fs, " "))
+	g.emit("%s", line)
+	g.dtDecls = append(g.dtDecls, [2]string{id, line})
 	return id
 }
 
